@@ -351,6 +351,7 @@ def run(ctx):
     leading_text_skip(ctx, P)
     dash_line_tolerates_trailing_blanks(ctx, P)
     stream.finished_flag_set_after_the_writes(ctx, P)
+    stream.tee_writer(ctx, P)        # the emitted CRC-24 is computed by the tee over exactly what was written
     # no error of the armor / base64 layer is dropped: an undecodable checksum line that becomes "no checksum" is an accepted input
     # whose checksum does not match (R-err of C09 restricted to the armor stack)
     stream.r_err(ctx, P, only=r'(^|<)(armor|base64|line_writer|crc24)::', floor=100)
